@@ -262,6 +262,63 @@ def math_argtype(repo, res):
                          f"{'complex' if want_kind == 'complex' else 'real'} function `{want}` is required"
                          + (": the real function converts the complex argument to its real part" if want_kind == "complex" else ""), m.line(h.node))
 
+    # whatever the tables say: a call with a complex-valued argument is either emitted with a function of the <complex.h> family of
+    # that operation or rejected - never with a real-only function (erf, atan2, fmin/fmax, the POSIX Bessel functions jn/yn, whose
+    # first argument is the integer order), which would be applied to the real part of the argument
+    from .backend import C_FAMILIES
+
+    INT = "DataType.INT"
+    for sname, rname in (("complex128", "float64"), ("complex64", "float32")):
+        for fn in sorted(set(table[rname]) | set(table[sname])):
+            two = fn in ("power", "atan2", "atan_2", "min_value", "max_value", "bessel_y", "bessel_j")
+            order_first = fn in ("bessel_y", "bessel_j")
+            variants = ([[INT, C]] if order_first else [[R, C], [C, R], [C, C]]) if two else [[C]]
+            for dts in variants:
+                key = f"{h.key}:{sname}:{fn}({','.join(d.split('.')[1] for d in dts)}):complex-argument"
+                res.ob(key)
+                it = Interp(repo, load_classes(repo), primary=FM)
+                it.overrides["warnings.warn"] = _PyCall(lambda *a, **k: None)
+                it.overrides["np.issubdtype"] = _PyCall(lambda t, k: (k.endswith("complexfloating") if isinstance(k, str) else False) and getattr(t, "f", {}).get("name", "").startswith("complex"))
+                it.overrides["np.complexfloating"] = "np.complexfloating"
+                it.overrides["np.iscomplexobj"] = _PyCall(lambda t: getattr(t, "f", {}).get("name", "").startswith("complex"))
+                fmt = Node("Formatter", scalar_type=Node("dtype", name=sname, kind="c"), real_type=Node("dtype", name=rname, kind="f"),
+                           __call__=_PyCall(lambda a: a.f["name"] if isinstance(a, Node) and "name" in a.f else "x"))
+                call = Node("MathFunction", function=fn, args=[S(f"a{i}", d) if d != INT else Node("LiteralInt", value=1, dtype=INT, name="1") for i, d in enumerate(dts)], dtype=C)
+                try:
+                    text = it.call_f(h, [fmt, call])
+                except Raised:
+                    continue  # rejected: fine
+                got = str(text).split("(", 1)[0]
+                allowed = C_FAMILIES.get(fn, {}).get(sname, set())
+                if got not in allowed:
+                    res.fail(key, f"{fn} with argument types {[d.split('.')[1] for d in dts]} in a {sname} kernel is emitted as `{text}`: `{got}` is a real function "
+                             f"({'there is no complex version of it' if not allowed else 'the complex version is ' + '/'.join(sorted(allowed))}), C converts the complex "
+                             "argument to its real part without a diagnostic - the call must use a complex function or be rejected", m.line(h.node), props=("C09", "C19"))
+    # a real-valued argument in complex mode keeps the real function (Bessel functions of geometry, erf of a real coefficient expression)
+    for sname, rname in (("complex128", "float64"), ("complex64", "float32")):
+        for fn, dts in (("bessel_j", [INT, R]), ("bessel_y", [INT, R]), ("erf", [R]), ("atan2", [R, R])):
+            if fn not in table[rname]:
+                continue
+            key = f"{h.key}:{sname}:{fn}({','.join(d.split('.')[1] for d in dts)}):real-argument-in-complex-mode"
+            res.ob(key)
+            it = Interp(repo, load_classes(repo), primary=FM)
+            it.overrides["warnings.warn"] = _PyCall(lambda *a, **k: None)
+            it.overrides["np.issubdtype"] = _PyCall(lambda t, k: (k.endswith("complexfloating") if isinstance(k, str) else False) and getattr(t, "f", {}).get("name", "").startswith("complex"))
+            it.overrides["np.complexfloating"] = "np.complexfloating"
+            it.overrides["np.iscomplexobj"] = _PyCall(lambda t: getattr(t, "f", {}).get("name", "").startswith("complex"))
+            fmt = Node("Formatter", scalar_type=Node("dtype", name=sname, kind="c"), real_type=Node("dtype", name=rname, kind="f"),
+                       __call__=_PyCall(lambda a: a.f["name"] if isinstance(a, Node) and "name" in a.f else "x"))
+            call = Node("MathFunction", function=fn, args=[S(f"a{i}", d) if d != INT else Node("LiteralInt", value=1, dtype=INT, name="1") for i, d in enumerate(dts)], dtype=R)
+            try:
+                text = it.call_f(h, [fmt, call])
+            except Raised as e:
+                res.fail(key, f"{fn} of a real-valued argument is rejected in a {sname} kernel ({e.what}): real quantities (geometry, real()/imag()) keep their real functions",
+                         m.line(h.node), props=("C09", "C19"))
+                continue
+            got = str(text).split("(", 1)[0]
+            if got not in C_FAMILIES.get(fn, {}).get(rname, {got}):
+                res.fail(key, f"{fn} of a real-valued argument in a {sname} kernel is emitted as `{text}`", m.line(h.node), props=("C09", "C19"))
+
     # functions without a complex version: a complex argument must be rejected, not silently reduced to its real part
     for sname, rname in (("complex128", "float64"), ("complex64", "float32")):
         for fn in sorted(k_ for k_ in table[rname] if k_ not in table[sname]):
